@@ -249,7 +249,7 @@ func c13Run(c c13Case, st *vlib.Stats) string {
 	var seq, firstSess, lastSess, stmtWrites, flusherIn int64
 	var flusherSeqs []int64
 	var flusherWhat []string
-	noCreate := int64(0) // 1 while the running statement is not a CREATE TABLE
+	noCreate := int64(0)              // 1 while the running statement is not a CREATE TABLE
 	var logAppended, logWritten int64 // bytes statements appended to the log / bytes handed to the log file
 	storage.VerifHook = func(point string, arg uint64) {
 		gid := curGID()
